@@ -29,7 +29,7 @@ checks = {
   note="Arguments on the dyadic lattice so 'decodes to that history' is bit-exact; error message text is not mirrored (only error-ness, EncodeError type and identity of the first error).",
   technique="deterministic simulation: fault enumeration over crash points of call histories against a reference automaton, seeded histories, tape shrinking and replay"),
 "C17": dict(level="fault_enumeration", ref="DESIGN.md §5 C17",
-  text="Crash-and-restart simulation of Encoder and Renderer objects: a first use A is aborted at a call index by one of several causes (producer stops mid-path, protocol fault, corrupt/truncated stored file failing mid-decode, completed), the object is restarted by Reset/Decode and a second program B must give exactly the result a fresh object gives (bytes, error, CSel/NSel/LOD; rasteriser log bit for bit incl. paints; pixels with the real vec.Rasterizer); B is sometimes A's own template with a few arguments changed. Sampled (A,B) pairs get every cut of A enumerated for each cause. Also: same calls on two fresh Encoders, Bytes asked twice at the end and at a drawn mid-program point (inside open paths).",
+  text="Crash-and-restart simulation of Encoder and Renderer objects: a first use A is aborted at a call index by one of several causes (producer stops mid-path, protocol fault, corrupt/truncated stored file failing mid-decode, completed), the object is restarted by Reset/Decode and a second program B must give exactly the result a fresh object gives (bytes, error, CSel/NSel/LOD; rasteriser log bit for bit incl. paints; pixels with the real vec.Rasterizer); B is sometimes A's own template with a few arguments changed; further uneventful uses (1-3, around 256/512, around 65536 Resets) may lie in between; the second decode may carry WithPalette/WithColorAt options; the real rasteriser's second-use image may already hold pixels and have another size. Sampled (A,B) pairs get every cut of A enumerated for each cause. Also: same calls on two fresh Encoders, Bytes asked twice at the end and at a drawn mid-program point (inside open paths).",
   note="Results are copied before the object is touched again (an earlier Bytes slice aliases the recycled buffer by design). The vec back end is used only on well-formed input with moderate coordinates.",
   technique="deterministic simulation: crash/restart at enumerated call indices with injected abort causes, reused object vs fresh object as reference model, tape shrinking and replay"),
 "C07": dict(level="exploration", ref="DESIGN.md §5 C07",
@@ -37,7 +37,7 @@ checks = {
   note="No fault is injected: the property is stated for an intact channel. Weakest fit for this technique (see DESIGN.md §3); lattice arguments avoid codec rounding; gradient matrices computed by helpers are compared with 1e-5 relative tolerance.",
   technique="deterministic simulation: seeded histories through two pipeline topologies with stream cuts at every call boundary, lockstep state comparison, tape shrinking and replay"),
 "C18": dict(level="exploration", ref="DESIGN.md §4.3, §5 C18",
-  text="Seeded interleavings of 2-6 independent pipelines (decode/render/encode/disassemble/colour helpers/generator front ends) at Go-statement granularity: the check copies the tree, inserts a yield before every statement with go/ast, and a baton scheduler driven by the tape decides who runs (PCT-style change points or chaos). Oracles: each task's result equals its solo result; hashes of all shared inputs and of every package-level variable (generated VerifGlobals, deep reflective hash) are unchanged after every scheduling slice. A second arm runs the same tape-scheduled interleavings in a -race build whose hand-overs the race detector cannot see (//go:norace polling on one P), so that any conflicting unsynchronised accesses by two pipelines are reported, deterministically, as C18.data-race.",
+  text="Seeded interleavings of 2-6 independent pipelines (decode/render/encode/disassemble/colour helpers/generator front ends) at Go-statement granularity: the check copies the tree, inserts a yield before every statement with go/ast, and a baton scheduler driven by the tape decides who runs (PCT-style change points or chaos). Shared, watched inputs: source bytes, palettes, gradient stops, option and transform tables spread into variadic parameters (all with spare capacity, watched up to cap), parsed mdicons.Path values, an initialised render.Gradient; pipelines may keep an Encoder/Renderer alive through two uses. Oracles: each task's result equals its solo result; hashes of all shared inputs and of every package-level variable (generated VerifGlobals, deep reflective hash) are unchanged after every scheduling slice. A second arm runs the same tape-scheduled interleavings in a -race build whose hand-overs the race detector cannot see (//go:norace polling on one P), so that any conflicting unsynchronised accesses by two pipelines are reported, deterministically, as C18.data-race.",
   note="Preemption granularity is the statement, not the memory access; in the normal arm a racy write that changes no result is invisible, which is what the race arm is for (it needs cgo for the -race build; without it the arm is skipped and the evidence says so). The schedule, not the race detector, is the source of every interleaving: the detector only monitors a deterministic execution.",
   technique="deterministic simulation: seeded scheduler over statement-level yields inserted into a scratch copy, solo-run reference results, global/input write detection, tape shrinking and replay"),
 }
